@@ -319,6 +319,10 @@ SharedOrderClass(t, o) ==
     TagIf(SelectSeq(t.header, LAMBDA c : c \in Range(o.header)) # SelectSeq(o.header, LAMBDA c : c \in Range(t.header)),
           "shared-columns-order-differs")
 PrefixClass(px) == TagIf(px # "right_", "custom-prefix")
+(* several key columns, one of them the operand's index column but not the first key *)
+KeyIndexClass(t, ks, o, ko) ==
+    TagIf(\/ (Len(ks) > 1 /\ t.index \in Range(ks) /\ ks[1] # t.index)
+          \/ (Len(ko) > 1 /\ o.index \in Range(ko) /\ ko[1] # o.index), "index-column-is-a-later-key")
 
 -----------------------------------------------------------------------------
 (* Actions: one per public call; T versions are pure, the others also emit    *)
@@ -348,7 +352,8 @@ Transposed(sel)  == TransposedT(sel) /\ Log("Transposed", <<"n", sel>>, SizeClas
 
 InnerJoinT(ks, ko, px) == Once(InnerJoinTableP(tab, oth, ks, ko, px))
 InnerJoin(ks, ko, px)  == InnerJoinT(ks, ko, px) /\
-    Log("InnerJoin", <<ks, ko, px>>, IndexDupClass(tab, InnerJoinTableP(tab, oth, ks, ko, px)))
+    Log("InnerJoin", <<ks, ko, px>>, IndexDupClass(tab, InnerJoinTableP(tab, oth, ks, ko, px))
+                                     \cup KeyIndexClass(tab, ks, oth, ko))
 
 NaturalJoinOf(t, o, px) == InnerJoinTableP(t, o, Shared(t, o), Shared(t, o), px)
 NaturalJoinT(px) == Once(NaturalJoinOf(tab, oth, px))
